@@ -38,6 +38,11 @@ def run(ctx):
     ctx.rule("S7", "every FSM: all targets defined, all states reachable from reset, reset reachable from every state "
                    "(no trap), for every valuation of the Python-level conditions in the FSM", min_sites=2)
     ctx.rule("S9", "an empty element accepts: ~(source.valid formula) entails the sink.ready formula", min_sites=5)
+    ctx.rule("S11", "Gearbox level thresholds keep the occupancy register inside its declared range 0..max-1 (linear forms over "
+                    "the positive widths): an overflow wraps the level, source.valid drops while the consumer stalls", min_sites=6)
+    ctx.rule("S12", "Gearbox thresholds cannot block both sides: sink.ready = level < Tr, source.valid = level >= Tv with "
+                    "Tr >= Tv, from io_lcm >= 2*i_dw and io_lcm >= 2*o_dw (the two doubling statements); the level only "
+                    "decreases on a source handshake (valid is not withdrawn)", min_sites=7)
     ctx.rule("PRIO", "no assignment is made dead by a later unconditional assignment to the same target in the same "
                      "scope", min_sites=5)
 
@@ -67,6 +72,9 @@ def run(ctx):
         ctx.ob("S9", STREAM, cls, "empty=>sink.ready", ok,
                "" if ok else f"when the element is empty ({B.show(empty)}) sink.ready = {B.show(fr)} can be low: nothing "
                              f"can ever change its state -> dead-lock")
+
+    # ---- Gearbox thresholds
+    _gearbox(ctx)
 
     # ---- S1' PipeReady
     fx = fx_of(ctx, STREAM, "PipeReady")
@@ -131,6 +139,100 @@ def run(ctx):
         fsm_sanity(ctx, "S7", fx, cls)
         prio(ctx, "PRIO", fx, cls)
         s1_stability(ctx, "S1", fx, cls)   # no registered source field today; armed if one appears
+
+
+def _lower_bounds(e):
+    """Lower bounds (linear forms) of the Python integer expression `e`, from its shape:
+    lcm(a, b) >= a, b;  `E*2 if E//d < 2 else E`  >= 2*d when E is a positive multiple of d (d among E's bounds), and >= E."""
+    import ast
+    from ..core import norm
+    from .. import lin
+    if isinstance(e, ast.Call) and norm(e.func) == "lcm" and len(e.args) == 2:
+        return [lin.linform(a) for a in e.args], {norm(a) for a in e.args}
+    if isinstance(e, ast.IfExp) and isinstance(e.test, ast.Compare) and len(e.test.ops) == 1 and isinstance(e.test.ops[0], ast.Lt) \
+            and norm(e.test.comparators[0]) == "2" and isinstance(e.test.left, ast.BinOp) and isinstance(e.test.left.op, ast.FloorDiv):
+        E, d = e.test.left.left, e.test.left.right
+        dbl = e.body
+        is_dbl = isinstance(dbl, ast.BinOp) and isinstance(dbl.op, ast.Mult) and \
+            ((norm(dbl.left) == norm(E) and norm(dbl.right) == "2") or (norm(dbl.right) == norm(E) and norm(dbl.left) == "2"))
+        if is_dbl and norm(e.orelse) == norm(E):
+            lbs, mult = _lower_bounds(E)
+            out = list(lbs)
+            if norm(d) in mult:          # E is a positive multiple of d: E//d < 2  <=>  E == d
+                out.append(lin.scale(lin.linform(d), 2))
+            return out, mult
+    return [], set()
+
+
+def _gearbox(ctx):
+    import ast
+    from ..core import norm
+    from .. import lin
+    from ..rules_stream import s_range
+    fx = fx_of(ctx, STREAM, "Gearbox")
+    fail_closed(ctx, fx, "Gearbox")
+    s_range(ctx, "S11", fx, "Gearbox", "level")
+    rd = fx.find(domain="comb", target="self.sink.ready")
+    vd = fx.find(domain="comb", target="self.source.valid")
+    ok = len(rd) == 1 and len(vd) == 1 and not rd[0].guards and not vd[0].guards
+    ctx.ob("S12", STREAM, "Gearbox", "sink.ready / source.valid: one unconditional comb driver each", ok, "" if ok else "drivers changed", 0)
+    if not ok:
+        return
+
+    def thr(node, want):     # -> linear threshold T with  expr <=> level >= T (want '>=') or level < T (want '<')
+        if not (isinstance(node, ast.Compare) and len(node.ops) == 1):
+            return None
+        op, l, r = type(node.ops[0]), node.left, node.comparators[0]
+        if norm(r) == "level":
+            l, r = r, l
+            op = {ast.Lt: ast.Gt, ast.LtE: ast.GtE, ast.Gt: ast.Lt, ast.GtE: ast.LtE}.get(op)
+        if norm(l) != "level":
+            return None
+        T = lin.linform(r)
+        if want == "<":
+            return T if op is ast.Lt else (lin.add(T, lin.const(1)) if op is ast.LtE else None)
+        return T if op is ast.GtE else (lin.add(T, lin.const(1)) if op is ast.Gt else None)
+    Tr, Tv = thr(rd[0].value, "<"), thr(vd[0].value, ">=")
+    ok = Tr is not None and Tv is not None
+    ctx.ob("S12", STREAM, "Gearbox", "thresholds are comparisons of level", ok,
+           "" if ok else f"sink.ready = {rd[0].v[:60]}, source.valid = {vd[0].v[:60]}", rd[0].line)
+    if not ok:
+        return
+    M = None
+    for k in fx.decl["level"][1].keywords:
+        if k.arg == "max":
+            M = k.value
+    lbs, _ = _lower_bounds(M) if M is not None else ([], set())
+    Mf = lin.linform(M) if M is not None else {}
+    facts = [lin.sub(Mf, lb) for lb in lbs]          # each >= 0
+    ctx.ob("S12", STREAM, "Gearbox", "buffer size >= 2*i_dw and >= 2*o_dw", any(lin.show(lb) == "2*i_dw" for lb in lbs) and
+           any(lin.show(lb) == "2*o_dw" for lb in lbs), f"lower bounds derived from the shape of io_lcm: {[lin.show(x) for x in lbs]}: with a "
+           f"single-word buffer sink.ready (level < io_lcm - i_dw) is never true", 0)
+    need = lin.sub(Tr, Tv)       # must be >= 0
+    found = lin.sign(need) in (0, 1)
+    import itertools
+    for kN in (1, 2):
+        for cs in itertools.product((0, 1, 2), repeat=len(facts)):
+            rest = lin.scale(need, kN)
+            for c, f in zip(cs, facts):
+                rest = lin.sub(rest, lin.scale(f, c))
+            if lin.sign(rest) in (0, 1):
+                found = True
+    ctx.ob("S12", STREAM, "Gearbox", "never both not-ready and not-valid (Tr >= Tv)", found,
+           "" if found else f"sink.ready <=> level < {lin.show(Tr)} and source.valid <=> level >= {lin.show(Tv)}: a level in "
+                            f"[{lin.show(Tr)}, {lin.show(Tv)}) refuses input and offers no output for ever", rd[0].line)
+    inl = q.Inliner(fx)
+    Hout = inl.inline(B.from_expr("self.source.valid & self.source.ready"))
+    n = 0
+    for a in fx.find(domain="sync", target="level"):
+        d = lin.sub(lin.linform(a.value), {"level": 1})
+        if any(c < 0 for c in d.values()):
+            n += 1
+            G = q.gformula(fx, a)
+            ok = B.entails(G, Hout)
+            ctx.ob("S12", STREAM, "Gearbox", f"level {lin.show(d)} only on a source handshake", ok,
+                   "" if ok else f"level decreases under {B.show(G)}: source.valid can drop while the consumer stalls", a.line)
+    ctx.ob("S12", STREAM, "Gearbox", "level decrements:present", n >= 2, f"{n} decrementing updates", 0)
 
 
 def run_thorough(ctx):
